@@ -14,6 +14,7 @@ import (
 	"os"
 	"path/filepath"
 	"runtime"
+	"runtime/debug"
 	"sort"
 	"strings"
 	"sync"
@@ -21,6 +22,7 @@ import (
 	"time"
 
 	"github.com/tmpim/casket"
+	"github.com/tmpim/casket/caskethttp/httpserver"
 
 	"verif/sim"
 )
@@ -55,6 +57,9 @@ type lfRig struct {
 	tmp           string
 	busyPort      int
 	busy          net.Listener
+	quic          bool           // the process runs with -quic: every server also opens a UDP socket on its port
+	busyUDP       net.PacketConn // a UDP port somebody else holds while the TCP port of the same number is free
+	busyUDPPort   int
 	seq           int
 	inst          *casket.Instance
 	running       *lfCfg
@@ -86,7 +91,7 @@ func init() {
 
 // seeds below lfDirected are the systematic enumeration
 // (running or not) x (3 ways of loading) x (every failure kind)
-const lfDirected = 6 * 32
+const lfDirected = 6 * 33
 
 var lfFailKinds = []string{
 	"syntax", "unknown-directive",
@@ -96,6 +101,7 @@ var lfFailKinds = []string{
 	"bad:htpasswd-user", "bad:tlscert-garbage", "bad:import-syntax",
 	"port-in-use", "startup-callback:log", "startup-callback:simcb", "restart-callback",
 	"loader-error",
+	"udp-port-in-use", // (with -quic only; "port-in-use" otherwise)
 }
 
 func sha(pass string) string {
@@ -113,6 +119,12 @@ func (r *lfRig) genCfg(fail string) *lfCfg {
 		s := lfSite{host: fmt.Sprintf("s%d.test", i+1), marker: fmt.Sprintf("%s-m%d", cfg.label, i), token: fmt.Sprintf("TOKEN-%s-%d-%d", cfg.label, i, r.c.T.Seed%100000), bind: bind}
 		s.auth = st.Draw(2) == 0
 		s.https = i == 0 && st.Draw(4) == 0 // all sites of a config share one listener: TLS for all or none
+		if r.quic {
+			// (a TLS site under -quic starts quic-go's HTTP/3 server, and a reload that hands the UDP socket
+			// over panics inside quic-go v0.43 with "connection already exists" while the old server still
+			// runs on it: the experimental flag cannot be reloaded at all, see DESIGN 0.3)
+			s.https = false
+		}
 		if i > 0 {
 			s.https = cfg.sites[0].https
 		}
@@ -158,6 +170,15 @@ func (r *lfRig) genCfg(fail string) *lfCfg {
 		// listener is already open (or inherited) when the failure happens
 		fmt.Fprintf(&b, "http://busy.test:%d {\n\tbind 127.0.0.1\n}\n", r.busyPort)
 		cfg.extra = r.busyPort
+	}
+	if fail == "udp-port-in-use" {
+		// with -quic a server listens on TCP and UDP: here the TCP port is free and the UDP port
+		// of the same number is held by somebody else, so the failure comes after Listen succeeded
+		if r.busyUDP == nil {
+			r.occupyUDP()
+		}
+		fmt.Fprintf(&b, "http://busy.test:%d {\n\tbind 127.0.0.1\n}\n", r.busyUDPPort)
+		cfg.extra = r.busyUDPPort
 	}
 	cfg.text = b.String()
 	return cfg
@@ -390,6 +411,11 @@ func runLoadfail(c *sim.Ctl) {
 	r := &lfRig{c: c, st: c.T.Stream("struct"), logw: &lockedBuf{}}
 	lf = r
 	log.SetFlags(0)
+	// A listener nobody refers to any more is closed by its finalizer at some later collection: until
+	// then the socket is there (it accepts connections nobody serves, and the port cannot be bound).
+	// Whether a failed attempt "left a socket behind" must not depend on when the collector happens
+	// to run, so it does not run during a history (a history is short and has a process of its own).
+	defer debug.SetGCPercent(debug.SetGCPercent(-1))
 	log.SetOutput(r.logw)
 	tmp, err := os.MkdirTemp("", "c08-")
 	if err != nil {
@@ -430,8 +456,19 @@ func runLoadfail(c *sim.Ctl) {
 	directed := c.T.Seed < lfDirected
 	dIdx := int(c.T.Seed)
 	startRunning := st.Draw(10) < 7
+	r.quic = st.Draw(6) == 0
 	if directed {
 		startRunning = dIdx%2 == 0
+		r.quic = lfFailKinds[(dIdx/6)%len(lfFailKinds)] == "udp-port-in-use"
+	}
+	httpserver.QUIC = r.quic
+	if r.quic {
+		c.Probe("process-runs-with-quic")
+		defer func() {
+			if r.busyUDP != nil {
+				r.busyUDP.Close()
+			}
+		}()
 	}
 	if startRunning {
 		cfg := r.genCfg("")
@@ -479,6 +516,9 @@ func runLoadfail(c *sim.Ctl) {
 		}
 		if fail == "restart-callback" && (m != "restart" && m != "sigusr1") {
 			fail = "args:header"
+		}
+		if fail == "udp-port-in-use" && !r.quic {
+			fail = "port-in-use"
 		}
 		if fail == "loader-error" && (m != "start" && m != "sigusr1") {
 			fail = "missing:import" // the API takes the configuration text itself: no loader involved
@@ -553,6 +593,24 @@ func (r *lfRig) occupyPort() {
 	r.busyPort = busy.Addr().(*net.TCPAddr).Port
 }
 
+// occupyUDP holds a UDP port whose TCP twin is free.
+func (r *lfRig) occupyUDP() {
+	for i := 0; i < 50; i++ {
+		pc, err := net.ListenPacket("udp", "127.0.0.1:0")
+		if err != nil {
+			panic(err)
+		}
+		port := pc.LocalAddr().(*net.UDPAddr).Port
+		if ln, err := net.Listen("tcp", fmt.Sprintf("127.0.0.1:%d", port)); err == nil {
+			ln.Close()
+			r.busyUDP, r.busyUDPPort = pc, port
+			return
+		}
+		pc.Close()
+	}
+	panic("harness: no UDP port with a free TCP twin found")
+}
+
 // repair removes the environmental cause of a failed attempt, if its kind has one.
 func (r *lfRig) repair(cfg *lfCfg) bool {
 	root := filepath.Join(r.tmp, cfg.label, fmt.Sprintf("site%d", len(cfg.sites)-1))
@@ -560,6 +618,9 @@ func (r *lfRig) repair(cfg *lfCfg) bool {
 	switch cfg.fail {
 	case "port-in-use":
 		r.busy.Close() // whoever held the port has gone
+	case "udp-port-in-use":
+		r.busyUDP.Close()
+		r.busyUDP = nil
 	case "missing:htpasswd":
 		os.WriteFile(filepath.Join(root, "does-not-exist.ht"), []byte("bob:"+sha("hunter2")+"\n"), 0644)
 	case "bad:htpasswd-user":
@@ -652,7 +713,7 @@ func (r *lfRig) attempt(a lfAttempt) {
 	c.Logf("attempt %s %s -> err=%v", a.method, cfg.label, err)
 	expectFail := cfg.fail != "" && !a.envFixed
 	r.lastFailed = nil
-	if a.method == "validate" && (cfg.fail == "port-in-use" || strings.HasPrefix(cfg.fail, "startup-callback") || cfg.fail == "restart-callback") {
+	if a.method == "validate" && (cfg.fail == "port-in-use" || cfg.fail == "udp-port-in-use" || strings.HasPrefix(cfg.fail, "startup-callback") || cfg.fail == "restart-callback") {
 		expectFail = false // validation does not listen or run callbacks
 	}
 	if expectFail && err == nil {
